@@ -28,7 +28,8 @@ CHECKS = {
              ' Families: single operations in two notations, batches in two notations (hand-built batches put together '
              'through the constructor, strict=False, append and extend), and 2-3 callers sharing one '
              'async client with overlapping calls; every (client, dispatcher, flavour, id generator, strict) '
-             'configuration is forced systematically.',
+             'configuration is forced systematically.'
+             ' e2e.generations: generations of client / dispatcher / service objects built, used, dropped and collected in one process. Dispatchers may carry a batch-size limit the traffic stays within; client and server may use transparent user hooks; notation add_getitem queues calls and completes the batch with the bracket notation.',
         note='Trusted: the reference request-document validator and the direct-invocation oracle (pjsim/ref, '
              'pjsim/service); the transport is SimNet at the _request seam, not an HTTP back-end.',
         technique='deterministic simulation: seeded two-party runs, virtual-time event loop, differential oracle vs direct call',
@@ -67,7 +68,8 @@ CHECKS = {
              'the exception reaching the caller.'
              ' Further families: several requests on one long-lived client; 2-3 tasks on one async client and 2-3 baton '
              'threads on one sync client with overlapping attempts (pairing judged per request object); calls issued '
-             'while the caller handles an unrelated exception.',
+             'while the caller handles an unrelated exception.'
+             ' The library LoggingTracer can sit among the recording tracers, tracer hooks can be installed per instance, the caller-supplied trace context can be an object that accepts no attributes or a callable; a synchronous transport can raise StopIteration, any transport asyncio.CancelledError.',
         note='Trusted: the pairing oracle (Appendix F.6), SimLoop cancellation timing, SimNet. Tracers do not raise.',
         technique='deterministic simulation: fault sequences + seeded cancellation instants, history pairing oracle',
     ),
@@ -80,7 +82,8 @@ CHECKS = {
              'must yield None or (text, codes) with a valid, non-empty JSON-RPC 2.0 response document and agreeing '
              'codes; async batches run under seeded schedules with suspending methods. A fifth of the generated documents '
              'is respelled in another legal JSON form (escapes in names and strings, whitespace, raw unicode, duplicate '
-             'member names). Sampled inputs, not enumerated.',
+             'member names). Sampled inputs, not enumerated.'
+             ' Environment and configuration knobs drawn per run for every server-side family: transparent user hooks (message subclasses overriding from_json with the documented signature and defining __bool__, delegating loader / dumper / encoder / decoder), registered callables as functions / functools.partial objects / instances with __call__, one function published under several names (with and without injected context, behind a validator that hides a parameter, under a non-ASCII name), a class-based view with a static method and optionally a context named like a method parameter, error handlers as partials / callable instances / functions returning a Future, the library loggers at DEBUG in a quarter of the runs, a fifth of the documents respelled in another legal JSON form. server.own_loader: a json_loader that reads floats as Decimal in front of methods that never hand a parameter back.',
         note='Trusted: ref_jsonrpc.valid_response. Weakest simulation content of the claimed set: only the async batch '
              'path has a schedule in it; the simulator contributes traffic, wire-fault model and monitor.',
         technique='deterministic simulation: wire-fault injection on the request leg + invariant monitor at the server seam',
@@ -92,7 +95,8 @@ CHECKS = {
              'protocol error / arbitrary exception / invalid object; id typings; duplicate ids; max_batch_size around the '
              'length); reply and recorded executions compared with a reference dispatcher, and every accepted batch '
              'compared element by element with the replies of its elements sent alone to identically configured fresh '
-             'servers in the same world.',
+             'servers in the same world.'
+             ' Environment and configuration knobs drawn per run for every server-side family: transparent user hooks (message subclasses overriding from_json with the documented signature and defining __bool__, delegating loader / dumper / encoder / decoder), registered callables as functions / functools.partial objects / instances with __call__, one function published under several names (with and without injected context, behind a validator that hides a parameter, under a non-ASCII name), a class-based view with a static method and optionally a context named like a method parameter, error handlers as partials / callable instances / functions returning a Future, the library loggers at DEBUG in a quarter of the runs, a fifth of the documents respelled in another legal JSON form. Between deliveries every name can be registered again on the live dispatcher (hot reload): only the new functions may run afterwards.',
         note='Trusted: ref_dispatch (written from the JSON-RPC 2.0 specification), the instrumented service. '
              'max_batch_size=0 accepted under both readings.',
         technique='deterministic simulation: seeded schedules, exactly-once execution log, differential vs reference and vs solo sends',
@@ -103,7 +107,8 @@ CHECKS = {
              'position x call/notification as forced choice prefixes, then seeded combinations) and at the wire seam '
              '(request-leg corruption); replies compared with the reference error mapping (-32700/-32600/-32601/-32602, '
              'verbatim protocol errors incl. absent vs null data, -32000 without data) and searched for marker strings '
-             'and exception type names that must not leak.',
+             'and exception type names that must not leak.'
+             ' Environment and configuration knobs drawn per run for every server-side family: transparent user hooks (message subclasses overriding from_json with the documented signature and defining __bool__, delegating loader / dumper / encoder / decoder), registered callables as functions / functools.partial objects / instances with __call__, one function published under several names (with and without injected context, behind a validator that hides a parameter, under a non-ASCII name), a class-based view with a static method and optionally a context named like a method parameter, error handlers as partials / callable instances / functions returning a Future, the library loggers at DEBUG in a quarter of the runs, a fifth of the documents respelled in another legal JSON form. Callee faults include 24 exception classes (timeouts, futures\' CancelledError, connection reset, exception groups, an exception raised while a caught protocol error is being handled ...).',
         note='Trusted: ref_dispatch; data of library-generated errors is not modelled; huge integer literals are an '
              'open zone (C01 only).',
         technique='deterministic simulation: systematic single-fault placements + seeded fault combinations, reference error mapping',
@@ -115,7 +120,8 @@ CHECKS = {
              'random pick, PCT priorities) in virtual time. The reply must equal the reference chain (request order, own '
              'id, own result/error), every method must have run exactly once, and with concurrent_batch=False the '
              'in-flight intervals must be pairwise disjoint and in request order. Interleavings are sampled (distinct '
-             'interleaving signatures reported), not enumerated.',
+             'interleaving signatures reported), not enumerated.'
+             ' Environment and configuration knobs drawn per run for every server-side family: transparent user hooks (message subclasses overriding from_json with the documented signature and defining __bool__, delegating loader / dumper / encoder / decoder), registered callables as functions / functools.partial objects / instances with __call__, one function published under several names (with and without injected context, behind a validator that hides a parameter, under a non-ASCII name), a class-based view with a static method and optionally a context named like a method parameter, error handlers as partials / callable instances / functions returning a Future, the library loggers at DEBUG in a quarter of the runs, a fifth of the documents respelled in another legal JSON form.',
         note='Trusted: SimLoop (subclass of asyncio.BaseEventLoop), ref_chain. Exhaustive enumeration of interleavings '
              'would be model checking and is not claimed.',
         technique='deterministic simulation: seeded schedulers over suspending batch elements, in-flight interval oracle',
@@ -132,7 +138,8 @@ CHECKS = {
              'the rest of the chain, answering itself when the virtual deadline expires) is combined with methods that '
              'hang: the cancellation must end the inner chain where it stands and the middleware\'s own reply is what is '
              'sent. Concurrent family: 2-3 documents (half of the runs the same document, same ids) are in flight on one '
-             'asynchronous dispatcher at the same time, each delivery judged on its own records.',
+             'asynchronous dispatcher at the same time, each delivery judged on its own records.'
+             ' Environment and configuration knobs drawn per run for every server-side family: transparent user hooks (message subclasses overriding from_json with the documented signature and defining __bool__, delegating loader / dumper / encoder / decoder), registered callables as functions / functools.partial objects / instances with __call__, one function published under several names (with and without injected context, behind a validator that hides a parameter, under a non-ASCII name), a class-based view with a static method and optionally a context named like a method parameter, error handlers as partials / callable instances / functions returning a Future, the library loggers at DEBUG in a quarter of the runs, a fifth of the documents respelled in another legal JSON form. One handler object may occupy several slots that apply to the same failure.',
         note='Trusted: ref_chain (Appendix F.3). Middlewares / handlers do not raise.',
         technique='deterministic simulation: instrumented callee chain, per-element event-log oracle vs reference chain',
     ),
@@ -146,7 +153,8 @@ CHECKS = {
              'library deserialisation / identity error and must never accept what the reference validator rejects; the '
              'message in flight is also fed to each from_json directly. Plus id collisions injected at the id-generator '
              'seam (a refused add leaves the batch unchanged: next call() sends exactly the earlier requests) and '
-             'append/extend histories of up to 4 ids against a list model.',
+             'append/extend histories of up to 4 ids against a list model.'
+             ' Batch deserialisers fed directly are validated too (arrays element-wise, objects only as null-id batch-level errors with exactly one of result / error), also with an error base class of the caller\'s own; extend() is given lists, tuples, generators and iterators; member alphabets include lone surrogates, padded and combining-character strings and 300-character ids.',
         note='Trusted: ref_jsonrpc validators, ref_client matcher. A missing id member in a response is an open zone.',
         technique='deterministic simulation: enumerated structure-aware message corruption on both legs, id-generator collision faults',
     ),
@@ -163,7 +171,8 @@ CHECKS = {
              'permuted reply. match.concurrent: one kept batch wrapper with 2-3 explicit sends in flight at the same time '
              'on the async client, each reply faulted on its own (per-request keyed fault scripts) and judged on its own. '
              'match.retried: the client retries on the identity error; 2-3 successive deliveries, each with its own '
-             'fault, must each be matched afresh against the same request.',
+             'fault, must each be matched afresh against the same request.'
+             ' Open zones narrowed: next to a null-id entry every call keeps its position and a call without a response of its own id stays unanswered (strict); in non-strict mode a handed-out response is linked to the request with the same id or to none. Long ids (composite strings, 45-digit integers) get strangers that differ in the middle only.',
         note='Trusted: ref_client.match_single / match_batch (Appendix F.2). Open zones (null ids inside a batch array, '
              'non-strict mismatches) are not judged.',
         technique='deterministic simulation: enumerated response-leg faults on real client-server exchanges, reference matcher',
@@ -178,7 +187,8 @@ CHECKS = {
              'scripted transport behaviour (per-attempt faults, retry strategy, tracers) on the sync and async client; '
              'request documents, sleeps, caller outcome, tracer events and executions compared.'
              ' History families: the same sequence of requests on long-lived twin clients and on long-lived twin '
-             'dispatchers.',
+             'dispatchers.'
+             ' twin.server.big: batches of 99-300 elements on the three dispatchers. The server twin may run under a user encoder with its own rendering of the validation error; the client twin under an id_gen_impl that hands out one long-lived generator, with transparent client hooks, the library LoggingTracer, and transport replies that are white space only.',
         note='No reference model is involved; the false-alarm surface is the projection to schedule-invariant '
              'observations. The simulator\'s own sync/async instrumentation is equivalent by construction.',
         technique='deterministic simulation: same seeded scenario on both stacks, schedule-invariant history projection compared',
@@ -197,7 +207,8 @@ CHECKS = {
              'request must be answered as by a fresh dispatcher, nothing of the cancelled dispatch may make progress, and '
              'its context must be collectable.'
              ' (f) a census of all gc-tracked objects by type before and after 200-400 dispatches that differ in every '
-             'client-controlled part (token, id, params, method name): no type may grow with the number of requests.',
+             'client-controlled part (token, id, params, method name): no type may grow with the number of requests.'
+             ' Environment and configuration knobs drawn per run for every server-side family: transparent user hooks (message subclasses overriding from_json with the documented signature and defining __bool__, delegating loader / dumper / encoder / decoder), registered callables as functions / functools.partial objects / instances with __call__, one function published under several names (with and without injected context, behind a validator that hides a parameter, under a non-ASCII name), a class-based view with a static method and optionally a context named like a method parameter, error handlers as partials / callable instances / functions returning a Future, the library loggers at DEBUG in a quarter of the runs, a fifth of the documents respelled in another legal JSON form. A user encoder class whose instances serve one document each (per-document state) may be configured.',
         note='Trusted: baton scheduler (pre-emption only at line events of pjrpc / service files), CPython gc as the '
              'oracle for "no strong reference kept". The pydantic variant runs only if a smoke validation succeeds under '
              'the installed pydantic; the evidence says whether it ran.',
@@ -213,7 +224,8 @@ CHECKS = {
              'executed for other media types) and the three replies with each other.'
              ' Each run issues 1-3 POSTs on the same long-lived applications (main endpoint and a sub-endpoint with its '
              'own dispatcher; the serving dispatcher is identified). Network delivery fault on the aiohttp hop: the body '
-             'reaches the handler in 2-3 in-order pieces on the virtual clock, the later ones while the handler runs.',
+             'reaches the handler in 2-3 in-order pieces on the virtual clock, the later ones while the handler runs.'
+             ' Bodies padded with JSON and non-JSON white space or a byte order mark, blank bodies; Flask: extension initialised for an earlier application, additional endpoint with a trailing slash on a blueprint of its own.',
         note='Trusted: the in-process hops (WSGI test clients; aiohttp handler awaited on SimLoop with a mocked request '
              'and a real StreamReader). One hop, no clock: weakest simulation content after C01. Known finding: Flask 3.1 '
              'JSON provider vs pjrpc encoder (see known_findings.json).',
@@ -226,7 +238,8 @@ CHECKS = {
              'single and batch calls, positional/named params, hand-built ids incl. 0 and "", 2 endpoints x 2 methods plus '
              'an unpatched method and an unpatched endpoint, passthrough on/off) are replayed against a queue model; '
              'the async variant runs 2-3 caller tasks under the seeded loop and linearises them by arrival order. Replies, '
-             'ids, -32601 / passthrough / refusal and mocker.calls are compared.',
+             'ids, -32601 / passthrough / refusal and mocker.calls are compared.'
+             ' Named parameters called like the mocker\'s own vocabulary (version, endpoint, method_name), replace() with indices counted from the end.',
         note='Trusted: ref_mocker (Appendix F.5) and its generator preconditions (remove of existing keys only; '
              'replace(idx) only while queue order equals addition order; no notifications).',
         technique='deterministic simulation: seeded operation histories vs executable queue model, concurrent callers linearised by arrival',
